@@ -127,6 +127,8 @@ func C06(ctx *core.Ctx) {
 	ctx.Rule("C06.R1", "non-blocking delivery cone: no blocking channel op / Sleep / Wait reachable from the inbound entry points; sends only inside select-with-default", 8)
 	ctx.Rule("C06.R2", "bounded lock hold: every critical section of the registry mutex contains no blocking op, no call that can reach one in package frugal, and only whitelisted pure external calls", 3)
 	ctx.Rule("C06.R3", "every result channel handed to fRegistry.Register has constant capacity ≥ 1", 2)
+	ctx.Rule("C06.R4", "lock balance: every function acquiring the registry mutex releases it on every exit", 3)
+	lockBalance(ctx, r, "C06.R4", "fRegistryImpl")
 	ctx.Assume("(*nats.Conn).Publish/PublishRequest, logrus logging and thrift constructors do not wait for the peer")
 
 	bi := ssax.ComputeBlocking(r.Fns, r.Resolve)
